@@ -87,6 +87,8 @@ Section Gen.
     map (fun row => map (fun p => nmul O (fst p) (snd p)) (combine rad row)) sphere.
 
   (* ---- analytic radial ppf / cdf pairs used by the inversion path (covmodel/models.py) *)
+  (* Gaussian dim 1:  ppf u = 2 / l * erfinv(u)   (erfinv is a scipy oracle) *)
+  Definition gau1_ppf (l u : T) : T := nmul O (ndiv O (nofZ O 2) l) (noracle O ORA_ERFINV [u]).
   (* Gaussian dim 2:  cdf r = 1 - exp(-(r l / 2)^2);  ppf u = 2 / l * sqrt(-ln(1 - u)) *)
   Definition gau2_cdf (l r : T) : T :=
     nsub O (n1 O) (nexp O (nneg O (npow O (ndiv O (nmul O r l) (nofZ O 2)) (nofZ O 2)))).
@@ -96,9 +98,9 @@ Section Gen.
   Definition exp1_cdf (l r : T) : T := ndiv O (nmul O (natan O (nmul O r l)) (nofZ O 2)) (npi O).
   Definition exp1_ppf (l u : T) : T :=
     let a := nmul O (ndiv O (npi O) (nofZ O 2)) u in ndiv O (ndiv O (nsin O a) (ncos O a)) l.
-  (* Exponential dim 2:  cdf r = 1 - 1 / sqrt(1 + (r l)^2);  ppf u = sqrt(1 / u^2 - 1) / l  (u not close to 0) *)
+  (* Exponential dim 2:  cdf r = 1 - 1 / sqrt(1 + (r l)^2);  ppf u = sqrt(1 / (1 - u)^2 - 1) / l  (1 - u not close to 0) *)
   Definition exp2_cdf (l r : T) : T :=
     nsub O (n1 O) (ndiv O (n1 O) (nsqrt O (nadd O (n1 O) (npow O (nmul O r l) (nofZ O 2))))).
   Definition exp2_ppf (l u : T) : T :=
-    ndiv O (nsqrt O (nsub O (ndiv O (n1 O) (npow O u (nofZ O 2))) (n1 O))) l.
+    ndiv O (nsqrt O (nsub O (ndiv O (n1 O) (npow O (nsub O (n1 O) u) (nofZ O 2))) (n1 O))) l.
 End Gen.
